@@ -10,9 +10,9 @@ from ..common import MachineryError, imp, load_eolib_stubbed, require, run_tlc, 
 from ..wire import rand_calls, run_wire_trace
 
 CODE_NAMES = {1: "Atomic", 2: "ExactLength", 3: "SanitisedNoFF", 4: "ExactImage", 8: "RefusedExactlyWhenInvalid",
-              5: "ReadBackValue", 6: "ConsumedExactly", 7: "ReadRaised", 9: "HarnessMismatch"}
+              5: "ReadBackValue", 6: "ConsumedExactly", 7: "ReadRaised", 9: "HarnessMismatch", 10: "OutputSnapshotStable", 11: "AcceptableWriteRaised"}
 C09_CODES = {1, 2, 3, 4, 8}
-C04_CODES = {5, 6, 7}
+C04_CODES = {5, 6, 7, 10, 11}
 
 
 def _fmt_call(c):
@@ -91,6 +91,9 @@ def pipeline(tier, corrupt=None):
                         x = row["r"][j - 1]
                         upto = calls
                         what = f"{CODE_NAMES[code]}: read-back #{j} {x['call']} returned {x['ret']} {x['exc']}"
+                    elif code == 10:
+                        upto = calls
+                        what = "the bytearray returned by to_bytearray() after the first write changed when more was written"
                     else:
                         upto = calls
                         what = f"{CODE_NAMES[code]}: {row['rem']} byte(s) left after reading everything back"
